@@ -8,5 +8,6 @@ CONSTANTS
   Disturbs = TRUE
   DevRows = FALSE
   DevInd = FALSE
+  DevDocInd = FALSE
 INVARIANTS LengthInv StepOK HistoryFree ActionPrint
 CHECK_DEADLOCK FALSE
